@@ -91,6 +91,7 @@ type AScenario struct {
 	Keys          []string   `json:"keys"`                              // orchestration key fields
 	MetricKeys    []string   `json:"metric_keys,omitempty"`             // metricKeys of the configuration (default: host)
 	Out2          bool       `json:"second_output,omitempty"`           // a second output/buffer pair with different serialization settings (reference count 2 per record)
+	Fine          bool       `json:"fine_yields,omitempty"`             // every larger function entry of the agent is a preemption point in this run
 	Datadog       bool       `json:"datadog_output,omitempty"`          // a Datadog output/buffer pair whose consumer never takes a chunk: every chunk it makes ends up in its queue root
 	Poison        bool       `json:"poison_released_buffers,omitempty"` // released backing buffers are overwritten with 0xEE (in the other runs they keep their bytes until reused, which is what lets a stale reference read ANOTHER record)
 	Tag           string     `json:"tag"`                               // tag template
@@ -486,6 +487,18 @@ func (w *worldA) Generate(r *simrt.Rand, profile, tier string) any {
 	s.FinalStop = r.Bool(30)
 	w.tweak(r, s, end)
 	sortEvents(s.Events)
+	// part of the runs interleave at every larger function entry too (about four times the steps): that is where
+	// unsynchronised sharing between goroutines shows, e.g. two connections writing one scratch buffer
+	switch profile {
+	case "c11big", "c11dd", "c07big":
+	case "c06", "c12", "c05":
+		s.Fine = r.Bool(25)
+	default:
+		s.Fine = r.Bool(8)
+		if os.Getenv("VERIF_FINE_ALL") != "" {
+			s.Fine = true
+		}
+	}
 	return s
 }
 
@@ -832,6 +845,11 @@ func (w *worldA) Shrink(sc any) []any {
 		_ = json.Unmarshal(b, &c)
 		return &c
 	}
+	if s.Fine {
+		c := clone()
+		c.Fine = false
+		out = append(out, c)
+	}
 	for i := range s.Events {
 		c := clone()
 		c.Events = append(c.Events[:i], c.Events[i+1:]...)
@@ -990,6 +1008,10 @@ func (w *worldA) Run(t *testing.T, profile string, sc any, cfg simrt.Config) *Ou
 	}
 	r.cfgPath = filepath.Join(aTmpDir, "config.yml")
 	cfg.MaxSimTime = 100 * time.Hour
+	cfg.FineYields = s.Fine
+	if cfg.MaxSteps == 0 && s.Fine {
+		cfg.MaxSteps = 6_000_000
+	}
 	if cfg.MaxSteps == 0 {
 		cfg.MaxSteps = 600_000 // an ordinary run takes 2-30 thousand steps; a run that reconnects forever is cut and counted, not judged
 	}
